@@ -116,6 +116,17 @@ CLAIMS.update({
          "3.9, 4 (C20)"),
 })
 
+CLAIMS.update({
+ "C07": ("payload-agreement rule over all writers/readers of Lalr pointers; ordering and monotone-flag rules in the trie builder and resolveWithLookahead",
+         "Decides that the -3-offset / -action-3 codec is used consistently by every writer and reader, that minimized trie nodes are keyed by assigned ids, that a conflict is resolved only if all of its terminals were, and that the used depth is exported. Necessary conditions; which rule a lookahead string selects is not decided.",
+         "",
+         "3.1, 4 (C07)"),
+ "C08": ("template-tree analysis of the decision-list emitters; AST sibling comparison of the two emitted copies; shift-width rule; error-flow rule",
+         "Decides that both emitted copies of every decision list apply the predicate polarity in every option variant of the template and agree with each other in the committed parsers, that the memo key cannot collide between predicates, and that lookahead errors propagate. The planner that orders predicates is algorithmic and not decided.",
+         "",
+         "3.9, 3.10, 4 (C08)"),
+})
+
 NA = {
 }
 
